@@ -1,5 +1,5 @@
 #!/bin/sh
-# benign_eval.sh <Cnn>: applies each behaviour-preserving refactor r*.diff of /tmp/benign/out/Cnn to /repo,
+# benign_eval.sh <Cnn> [check]: applies each behaviour-preserving refactor r*.diff of /verif/benign/Cnn to a scratch worktree of /repo,
 # runs the property's check (must stay silent), reverts.
 ID=$1; CK=${2:-$1}
 R=${EVALREPO:-/tmp/evalrepo}; [ -d $R ] || git -C /repo worktree add --detach $R HEAD -q; git -C $R checkout -q --detach $(git -C /repo rev-parse HEAD) 2>/dev/null; export VERIF_REPO=$R VERIF_DIR=${EVALREPO:-/tmp/evalrepo}-verif; mkdir -p $VERIF_DIR; cp /verif/known_findings.json $VERIF_DIR/; cd $R || exit 2
